@@ -41,9 +41,9 @@ def model(c, runs):
             dict(name="liveness, pinned loop: a sendall never ends", module="Channel", expect="<liveness>",
                  cfg=cfg_text(constants=dict(BASE, UsersB="@{}", Daemons={"dB_out"}, OpsA={"sendall", "shutdown_write"},
                                              SendN=3, FixSendall=False), invariants=[], **LIVE)),
-            dict(name="liveness: sendall / sendall_stderr vs shutdown_write / close, timed mode, both readers", module="Channel",
+            dict(name="liveness: sendall vs shutdown_write / close, blocking and timed mode", module="Channel",
                  kw={"timeout": 850, "workers": 4},
-                 cfg=cfg_text(constants=dict(small, UsersB="@{}", Daemons={"dB_out", "dB_err"}, OpsA={"sendall", "sendall_err", "shutdown_write", "close"},
+                 cfg=cfg_text(constants=dict(small, UsersB="@{}", Daemons={"dB_out"}, OpsA={"sendall", "shutdown_write", "close"},
                                              Modes={"block", "timed"}), invariants=[], **LIVE)),
             dict(name="transport loss, peer EOF / CLOSE, 1 thread x 2 calls (stdout and stderr variant), three modes", module="Channel",
                  kw={"timeout": 850, "workers": 4},
@@ -143,8 +143,8 @@ def run(c):
             prog["lost"] = p["lost"]
         progs.append(prog)
     progs += programs(rnd, 8 if c.quick else 150)
-    deadline = time.time() + (9 if c.quick else 500)
-    explored = dc.explore_into(runs, c, progs, 12 if c.quick else 600, 5 if c.quick else 60, deadline, bound=1 if c.quick else 2,
+    deadline = time.time() + (9 if c.quick else 300)
+    explored = dc.explore_into(runs, c, progs, 12 if c.quick else 150, 5 if c.quick else 40, deadline, bound=1 if c.quick else 2,
                                max_steps=1500)
     laps["explore_s"] = round(time.time() - t0 - laps["model+replay_s"], 1)
     dc.validate(c, runs, INVS, describe)
